@@ -3,10 +3,15 @@
 (* Trace validation for C20 (harness/hx_dsp2/src/window.rs).  Components:  *)
 (*   window    the stand-alone Window iterator: `take` = its first n       *)
 (*             values and the phases read through the public `phase` field *)
-(*   windower  `size_hint` before every `next`; `next` = the first b       *)
-(*             frames of the chunk, or none.  The reset line carries the b *)
+(*   windower  `size_hint` at any time; `next` = the first b frames of the *)
+(*             chunk, or none; `nth{k}` = Iterator::nth(k), `skip{k}` =    *)
+(*             by_ref().skip(k).next(), `step_by{s,m}` = the first m items *)
+(*             of by_ref().step_by(s).  The reset line carries the b       *)
 (*             window values observed from a stand-alone Window of the     *)
 (*             frame type's Float companion (wv).                          *)
+(*   winfn     `eval` = dasp_window::Window::window(p) of Hann / Rectangle *)
+(*             on f64 / f32 / i16 at the phase p (logged exactly; num/den  *)
+(*             = the rational it was derived from, a hint for k/24)        *)
 (* Accepted iff (layer 1 of Window.tla)                                    *)
 (*   window: phases i/(n-1); Rect = 1 exactly; Hann in [0,1], symmetric,   *)
 (*     0 at both ends, 1 at the centre (odd n), non-decreasing to the      *)
@@ -16,7 +21,13 @@
 (*     chunks; chunk k frame i = mul_amp(frame[k*h + i], wv[i]) bit for    *)
 (*     bit (SampleFormats.MulAmp); every size hint satisfies               *)
 (*     lo <= remaining <= hi.  A bad hint is reported and the execution    *)
-(*     goes on (size_hint does not change the state).                      *)
+(*     goes on (size_hint does not change the state).  nth(j) / skip(j)    *)
+(*     yield chunk k+j iff it exists and consume min(k+j+1, Count);        *)
+(*     step_by(s) yields chunks k, k+s, ...;                               *)
+(*   winfn: Rect(p) = 1 exactly at EVERY phase (integer formats: full      *)
+(*     scale); Hann(p) in [0,1] and at p = k/24 the algebraic special      *)
+(*     value (Hann(0) = Hann(1) = 0, Hann(1/2) = 1) to 1e-12 (f64), 2^-20  *)
+(*     (f32 phases), 2^-11 (i16 phases).                                   *)
 (***************************************************************************)
 EXTENDS Window, SampleFormats, TLC, Json, IOUtils
 
@@ -81,16 +92,45 @@ AcceptHint ==
   /\ (Ev.r.v.hi.k = "some" => IsSJson(Ev.r.v.hi.v) /\ SLe(SFromInt(Rem), SFromJson(Ev.r.v.hi.v)))
 
 Samp(x) == SampleFromJson(cf.fmt, x)
-AcceptNextChunk ==
-  IF HasChunk(cf.L, cf.b, cf.h, k)
-    THEN /\ Ev.r.k = "some" /\ Len(Ev.r.v) = cf.b
-         /\ \A i \in 1..cf.b :
-              /\ Len(Ev.r.v[i]) = cf.ch
-              /\ \A c \in 1..cf.ch :
-                   LET src == Samp(cf.frames[ChunkOffset(k, cf.h) + i][c]) IN
-                   /\ MulAmpDefined(cf.fmt, src, cf.wv[i])
-                   /\ SampleEq(cf.fmt, Samp(Ev.r.v[i][c]), MulAmp(cf.fmt, src, cf.wv[i]))
-    ELSE Ev.r.k = "none"
+\* v = the first b frames of chunk number idx
+ChunkOK(v, idx) ==
+  /\ Len(v) = cf.b
+  /\ \A i \in 1..cf.b :
+       /\ Len(v[i]) = cf.ch
+       /\ \A c \in 1..cf.ch :
+            LET src == Samp(cf.frames[ChunkOffset(idx, cf.h) + i][c]) IN
+            /\ MulAmpDefined(cf.fmt, src, cf.wv[i])
+            /\ SampleEq(cf.fmt, Samp(v[i][c]), MulAmp(cf.fmt, src, cf.wv[i]))
+\* nth(j): the j-th of the remaining chunks (next = nth(0), skip(j).next() = nth(j))
+AcceptNthChunk(j) ==
+  /\ j >= 0
+  /\ IF NthHas(cf.L, cf.b, cf.h, k, j) THEN Ev.r.k = "some" /\ ChunkOK(Ev.r.v, k + j) ELSE Ev.r.k = "none"
+AcceptNextChunk == AcceptNthChunk(0)
+\* the first m items of step_by(s): chunks k, k + s, k + 2s, ... while they exist
+AcceptStepBy ==
+  LET sp == Ev.a.s  m == Ev.a.m IN
+  /\ sp >= 1 /\ m >= 1 /\ Ev.r.k = "items"
+  /\ Len(Ev.r.v) = StepGot(cf.L, cf.b, cf.h, k, sp, m)
+  /\ \A i \in 1..Len(Ev.r.v) : ChunkOK(Ev.r.v[i], k + (i - 1) * sp)
+
+---------------------------------------------------------------------------
+(* the window functions evaluated directly *)
+FnFloat == cf.fmt \in {"f64", "f32"}
+FnSampOK(x) == IF FnFloat THEN IsFields(x) /\ FIsFinite(FmtOf(cf.fmt), x)
+               ELSE IsSJson(x) /\ InRange(cf.fmt, SFromJson(x))
+\* phase / amplitude as exact dyadics (integer formats: sample / 2^(bits-1))
+FnVal(x) == IF FnFloat THEN Dec(FmtOf(cf.fmt), x) ELSE DScale2(DFromS(SFromJson(x)), 1 - Bits(cf.fmt))
+FnLsb == IF FnFloat THEN DZero ELSE DPow2(1 - Bits(cf.fmt))
+\* how close to k/24 (times 24) a phase of this format counts as "the phase k/24", and the tolerance scale
+FnClose == IF cf.fmt = "f64" THEN DPow2(-44) ELSE IF cf.fmt = "f32" THEN DPow2(-19) ELSE DPow2(-10)
+FnT == IF cf.fmt = "f64" THEN DE12 ELSE IF cf.fmt = "f32" THEN DPow2(20) ELSE DPow2(11)
+AcceptResetFn ==
+  /\ Ev.cfg.kind \in {"hann", "rect"} /\ Ev.cfg.fmt \in {"f64", "f32", "i16"}
+  /\ Ev.r.k = "unit" /\ Ev.o.ok
+AcceptEval ==
+  /\ Ev.r.k = "val" /\ FnSampOK(Ev.a.p) /\ FnSampOK(Ev.r.v)
+  /\ IF cf.kind = "rect" THEN RectFnOK(FnVal(Ev.r.v), FnLsb)
+     ELSE HannFnOK(FnVal(Ev.a.p), FnVal(Ev.r.v), Ev.a.num, Ev.a.den, FnClose, FnT)
 
 ---------------------------------------------------------------------------
 Consume == l <= Len(Rec) /\ l' = l + 1
@@ -103,6 +143,9 @@ TReset ==
   /\ IF Ev.comp = "window" /\ AcceptResetWindow
        THEN /\ comp' = "window" /\ skip' = FALSE
             /\ cf' = [Cf0 EXCEPT !.kind = Ev.cfg.kind, !.fmt = Ev.cfg.fmt, !.n = Ev.cfg.n]
+     ELSE IF Ev.comp = "winfn" /\ AcceptResetFn
+       THEN /\ comp' = "winfn" /\ skip' = FALSE
+            /\ cf' = [Cf0 EXCEPT !.kind = Ev.cfg.kind, !.fmt = Ev.cfg.fmt]
      ELSE IF Ev.comp = "windower" /\ AcceptResetWindower
        THEN /\ comp' = "windower" /\ skip' = FALSE
             /\ cf' = [kind |-> Ev.cfg.kind, fmt |-> Ev.cfg.fmt, ch |-> Ev.cfg.ch, L |-> Ev.cfg.L, b |-> Ev.cfg.b,
@@ -116,15 +159,29 @@ THint == /\ comp = "windower" /\ Ev.ev = "size_hint"
          /\ UNCHANGED << comp, cf, k, skip >>
 TNext == /\ comp = "windower" /\ Ev.ev = "next"
          /\ IF AcceptNextChunk
-              THEN /\ k' = IF Ev.r.k = "some" THEN k + 1 ELSE k
+              THEN /\ k' = NthAfter(cf.L, cf.b, cf.h, k, 0)
                    /\ HeapNote /\ UNCHANGED << comp, cf, skip >>
               ELSE Bad
+TNth == /\ comp = "windower" /\ Ev.ev \in {"nth", "skip"}
+        /\ IF AcceptNthChunk(Ev.a.k)
+             THEN /\ k' = NthAfter(cf.L, cf.b, cf.h, k, Ev.a.k)
+                  /\ HeapNote /\ UNCHANGED << comp, cf, skip >>
+             ELSE Bad
+TStepBy == /\ comp = "windower" /\ Ev.ev = "step_by"
+           /\ IF AcceptStepBy
+                THEN /\ k' = StepAfter(cf.L, cf.b, cf.h, k, Ev.a.s, Ev.a.m)
+                     /\ HeapNote /\ UNCHANGED << comp, cf, skip >>
+                ELSE Bad
+TEval == /\ comp = "winfn" /\ Ev.ev = "eval"
+         /\ (IF AcceptEval THEN HeapNote ELSE Reject)            \* stateless: every bad evaluation is reported
+         /\ UNCHANGED << comp, cf, k, skip >>
 Known == \/ comp = "window" /\ Ev.ev = "take"
-         \/ comp = "windower" /\ Ev.ev \in {"size_hint", "next"}
+         \/ comp = "windower" /\ Ev.ev \in {"size_hint", "next", "nth", "skip", "step_by"}
+         \/ comp = "winfn" /\ Ev.ev = "eval"
 TUnknown == ~Known /\ Bad
 
 TOp == /\ Consume /\ Ev.ev # "reset" /\ ~skip
-       /\ (TTake \/ THint \/ TNext \/ TUnknown)
+       /\ (TTake \/ THint \/ TNext \/ TNth \/ TStepBy \/ TEval \/ TUnknown)
 TSkip == Consume /\ Ev.ev # "reset" /\ skip /\ UNCHANGED << comp, cf, k, skip >>
 
 TraceInit == l = 1 /\ comp = "none" /\ cf = Cf0 /\ k = 0 /\ skip = TRUE
